@@ -864,6 +864,30 @@ fn check_csv_files(rep: &mut Report, dir: &std::path::Path) {
 
 /// a public identifier in the shape of a temporary one (`!A8`, `!D5`): the API accepts it and (since the fix recorded for C03)
 /// finds the item by it; the serialisation formats reserve that shape for temporary identifiers
+/// public identifiers in the shape of a temporary identifier of ANOTHER kind (`!R0` on an annotation, `!A1` on annotation
+/// data): ordinary identifiers, which the round trip keeps
+fn check_other_kind_shaped_public_ids(rep: &mut Report) {
+    for (aid, did) in [("!R0", "!A1"), ("!D1", "!K0"), ("!S0", "!R1"), ("!K1", "!S0")] {
+        let build = || -> AnnotationStore {
+            let mut store = AnnotationStore::default().with_id("s").with_resource(TextResourceBuilder::new().with_id("r0").with_text("hello world")).unwrap();
+            store.annotate(AnnotationBuilder::new().with_id("plain").with_target(SelectorBuilder::textselector("r0", Offset::simple(0, 5))).with_data_with_id("set", "k", "v", "d0")).unwrap();
+            store.annotate(AnnotationBuilder::new().with_id(aid).with_target(SelectorBuilder::textselector("r0", Offset::simple(6, 11))).with_data_with_id("set", "k", "w", did)).unwrap();
+            store
+        };
+        let ids = |st: &AnnotationStore| -> Vec<String> { let mut v: Vec<String> = st.annotations().map(|a| format!("annotation {:?} text {:?} data {:?}", a.id(), a.text().collect::<Vec<_>>(), a.data().map(|d| d.id().map(|x| x.to_string())).collect::<Vec<_>>())).collect(); v.sort(); v.push(format!("lookup {:?} {:?}", st.annotation(aid).map(|a| a.text().collect::<Vec<_>>().join("|")), st.annotationdata("set", did).map(|d| format!("{:?}", d.value())))); v };
+        let ctx = vec![format!("store: annotation \"plain\" with data \"d0\", annotation {:?} with data {:?} (public identifiers with the letter of another kind)", aid, did)];
+        let want = match guarded(std::panic::AssertUnwindSafe(|| ids(&build()))) { Ok(w) => w, Err(m) => { rep.fail("panic", "C05/other-kind-shaped-public-id/build-panics", ctx, "a store", &m); continue; } };
+        rep.count("json:public-id-with-another-kinds-letter");
+        let got = guarded(std::panic::AssertUnwindSafe(|| build().to_json_string(&Config::default()).and_then(|js| AnnotationStore::from_str(&js, Config::default())).map(|st| ids(&st)).map_err(|e| format!("{}", e))));
+        match got {
+            Ok(Ok(g)) if g == want => {}
+            Ok(Ok(g)) => rep.fail("oracle", "C05/roundtrip/public-id-with-the-letter-of-another-kind", ctx.clone(), &format!("{:?}", want), &format!("{:?}", g)),
+            Ok(Err(e)) => rep.fail("oracle", "C05/roundtrip/public-id-with-the-letter-of-another-kind", ctx.clone(), &format!("{:?}", want), &format!("does not load: {}", e)),
+            Err(m) => rep.fail("panic", "C05/roundtrip/public-id-with-the-letter-of-another-kind", ctx.clone(), &format!("{:?}", want), &m),
+        }
+    }
+}
+
 fn check_temp_shaped_public_ids(rep: &mut Report, property: Option<&str>, dir: &std::path::Path) {
     let build = || -> AnnotationStore {
         let mut store = AnnotationStore::default().with_id("s").with_resource(TextResourceBuilder::new().with_id("r0").with_text("hello world")).unwrap();
@@ -1093,6 +1117,7 @@ pub fn run(opts: &Opts) -> Report {
         for f in rep.failures.iter_mut().skip(n0) { if f.kind != "model" { f.signature = format!("{}/edge-value/{}", f.signature, name); } }
     }
     check_temp_shaped_public_ids(&mut rep, property, &dir);
+    if property.map(|p| p == "C05").unwrap_or(true) { check_other_kind_shaped_public_ids(&mut rep); }
     if property.map(|p| p == "C15").unwrap_or(true) { check_csv_files(&mut rep, &dir); }
     if property.map(|p| p == "C05").unwrap_or(true) { check_alignment_in_complex_selectors(&mut rep, &dir); }
     if property.map(|p| p == "C05").unwrap_or(true) { for i in 0..12 { check_substores(&mut rep, &dir, i); } for i in 0..108 { check_merge(&mut rep, &dir, i); } }
